@@ -25,7 +25,8 @@ theorem facts_ok :
     Facts.C12.sstGuardExcludesDir = false ∧ Facts.C12.sheetGuardExcludesDir = true ∧
     Facts.C12.sizeAccumulatedBeforeGuard = true ∧ Facts.C12.sizeGuardBeforeInflate = true ∧
     Facts.C12.openErrCleanup = true ∧ Facts.C12.dupReplaces = true ∧
-    Facts.C12.closeRemovesTemp = true ∧ Facts.C12.readBytesPromotes = true ∧
+    Facts.C12.closeRemovesTemp = true ∧ Facts.C12.deleteSheetDeletesPkg = true ∧
+    Facts.C12.deleteSheetDropsTemp = false ∧ Facts.C12.readBytesPromotes = true ∧
     Facts.C12.zipTempBranchViaReadBytes = true ∧ Facts.C12.saveFileListPrependsHeader = true ∧
     Facts.C12.sstLoaderPromotesThenRemoves = true ∧
     Facts.C12.loaderBeforeReader.all (·.2) = true ∧
@@ -321,6 +322,35 @@ witness of the C12b/1 / C02a/2 class (a placeholder table that survives the load
 theorem first_write_after_numeric_read :
     (Sst.run { part := [⟨some "a", "a"⟩, ⟨some "b", "b"⟩], spilled := true, inPkg := false }
       [.read, .set "c" "c", .get 0, .get 2]).2 = [.none, .idx 2, .str "a", .str "c"] := by decide
+
+/-! ## DeleteSheet after a spilled open -/
+
+/-- `close_cleans` over histories with sheet deletions: DeleteSheet (`Op.forget`) keeps the tempFiles
+entry of a spilled worksheet (fact `deleteSheetDropsTemp = false`), so the file stays referenced and
+Close removes it — for every package, limit pair and history in which deletions are interleaved with
+all other modelled operations.  (A DeleteSheet that drops the entry without removing the file breaks
+the invariant: the fact flips and this proof fails.) -/
+theorem close_cleans_with_deletes (l : Limits) (es : List Entry) (st : St) (h : openReader l es = .ok st)
+    (ops1 ops2 : List Op) (n rels : String) :
+    (close (run st (ops1 ++ [.forget n rels] ++ ops2)).1).1.disk = [] :=
+  (close_cleans l es st h (ops1 ++ [.forget n rels] ++ ops2)).1
+
+/-- finding (open, code frozen): DeleteSheet is *not* limit-independent at the package level. The
+part of a worksheet that was spilled at open survives DeleteSheet (it is still delivered by
+readBytes and written by the temp branch of writeToZip), whereas under the default limits it is
+gone.  Reproduced on the real code by the oracle signature
+`saved-package:deleted-spilled-sheet-part-survives`. -/
+theorem finding_deleted_spilled_part_survives :
+    ∃ s1 s2,
+      openReader ⟨10, 0⟩ [⟨"xl/worksheets/sheet1.xml", 100, false, .none, ⟨"a", 100⟩⟩,
+                          ⟨"xl/worksheets/sheet2.xml", 5, false, .none, ⟨"b", 5⟩⟩] = .ok s1 ∧
+      openReader ⟨0, 0⟩ [⟨"xl/worksheets/sheet1.xml", 100, false, .none, ⟨"a", 100⟩⟩,
+                         ⟨"xl/worksheets/sheet2.xml", 5, false, .none, ⟨"b", 5⟩⟩] = .ok s2 ∧
+      absAt (step s1 (.forget "xl/worksheets/sheet1.xml" "xl/worksheets/_rels/sheet1.xml.rels")).1
+        "xl/worksheets/sheet1.xml" = some ⟨"a", 100⟩ ∧
+      absAt (step s2 (.forget "xl/worksheets/sheet1.xml" "xl/worksheets/_rels/sheet1.xml.rels")).1
+        "xl/worksheets/sheet1.xml" = none := by
+  refine ⟨_, _, rfl, rfl, ?_, ?_⟩ <;> decide
 
 /-! ## non-vacuity -/
 
